@@ -332,10 +332,15 @@ def run_api(case, name):
     example = mkframe([[0, 1, 0]])
     sdf = DataFrame(example=example)
     with_state = "std" not in name
+    # every spelling of the window size: keyword or positional; a row count as Python int or numpy integer scalar (a size read from
+    # an array or a frame); a duration as pd.Timedelta
+    spell, nf = case.get("spell", "kw"), case.get("n_form", "int")
     if case["diff"] == "iloc":
-        w = sdf.window(n=case["w"], with_state=with_state)
+        nw = case["w"] if nf == "int" else getattr(np, nf)(case["w"])
+        w = sdf.window(nw, with_state=with_state) if spell == "pos" else sdf.window(n=nw, with_state=with_state)
     else:
-        w = sdf.window(value=pd.Timedelta(case["w"], "ns"), with_state=with_state)
+        val = pd.Timedelta(case["w"], "ns")
+        w = sdf.window(val, with_state=with_state) if spell == "pos" else sdf.window(value=val, with_state=with_state)
     L = api_pipeline(name, sdf, w).stream.sink_to_list()
     out = []
     for rows in case["batches"]:
@@ -691,7 +696,12 @@ def gen_case(rng, thorough):
         batches.insert(0, [])             # empty first batch
     napi = 2 if not thorough else 3
     api = rng.sample(API_NAMES, napi)
-    return {"diff": diff, "w": W, "gran": gran, "stream": stream, "batches": batches, "api": api}
+    case = {"diff": diff, "w": W, "gran": gran, "stream": stream, "batches": batches, "api": api}
+    if rng.random() < 0.4:
+        case["spell"] = "pos"
+    if diff == "iloc" and rng.random() < 0.4:
+        case["n_form"] = rng.choice(["int64", "int32", "int16"])      # (unsigned numpy scalars wrap in diff_iloc's subtraction: not a spelling the property covers)
+    return case
 
 
 CORPUS = [
@@ -713,6 +723,8 @@ CORPUS = [
                  [[9 * S, None, 1]], [[10 * S, 2, 2], [11 * S, 2, 2], [12 * S, 2, 2], [13 * S, 2, 1]]]},
     {"diff": "loc", "w": 3 * S, "gran": "s", "stream": True, "api": ["gmean@sser", "gstd1@col", "df.sum"],
      "batches": [[[0, 1, 0], [S, 2, 1], [S, 3, 1]], [[2 * S, 5, 2]], [], [[8 * S, 1, 0], [8 * S, 1, 0], [9 * S, 2, 1], [10 * S, None, 1], [12 * S, 4, 0]], [[12 * S, 0, 3]]]},
+    {"diff": "iloc", "w": 2, "gran": "s", "stream": False, "api": ["sum", "gsum@col"], "n_form": "int64", "spell": "kw",
+     "batches": [[[1 * S, 1, 0], [2 * S, 2, 1]], [[3 * S, 3, 0]], [[4 * S, 4, 1], [5 * S, 5, 1]]]},
     {"diff": "iloc", "w": 4, "gran": "ns", "stream": False, "api": ["vc", "size", "df.size"],
      "batches": [[[1, 2, 0], [1, 2, 0], [2, 3, 0]], [[2, 2, 1], [3, None, 1]], [[4, 3, 0], [5, 3, 0], [5, 3, 0], [6, 3, 1], [7, 1, 1]]]},
 ]
